@@ -214,7 +214,9 @@ def check(prop, tier):
     v.notes["simulated_run"] = {"overrides": big, "behaviours_requested": nsim, "scenarios_replayed": r["scenarios"], "mismatching_components": r.get("byComp")}
     # 5. code -> model on large random programs (C07, C08): the call tree dumped after each run must be the tree that the
     #    debug-tracer callbacks of that run imply (StepTrace.tla rebuilds it, including attempts refused up front)
-    if prop in ("C07", "C08"):
+    #    and (C05) the provider's log of join-point firings must be exactly: one pre firing right after the announcement of every
+    #    message call that runs code, one post firing right before its exit is announced, nothing else
+    if prop in ("C05", "C07", "C08"):
         import steptrace
         steptrace.run(v, prop, tier)
     v.cov["exhaustive"] = True
